@@ -16,7 +16,7 @@ WT = "/tmp/seedmx"
 PINNED = "c8c8cb2"
 EXTRA = {"C07-B": ["C03"], "C02-A": ["C09"], "C06-A": ["C05"], "C06-B": ["C18"], "C05-B": ["C03"], "C13-B": ["C03"],
          "C08-D": ["C03"], "C13-C": ["C03"], "C13-D": ["C03"], "C10-D": ["C03"], "C02-C": ["C03"], "C07-C": ["C03"],
-         "C09-C": ["C12"], "C09-D": ["C12"], "C01-D": ["C12"], "C19-D": ["C11"], "C08-C": ["C14"]}
+         "C04-D": ["C03"], "C09-C": ["C12"], "C09-D": ["C12"], "C01-D": ["C12"], "C19-D": ["C11"], "C08-C": ["C14"]}
 
 
 def sh(*a, **k):
@@ -43,6 +43,13 @@ def main():
             sh(["git", "-C", WT, "checkout", "-q", "--force", head])
             sh(["git", "-C", WT, "reset", "-q", "--hard"])
             base = head
+            try:
+                evaluate_on = json.load(open(os.path.join(d, "meta.json"))).get("evaluate_on")
+            except Exception:  # noqa
+                evaluate_on = None
+            if evaluate_on:
+                sh(["git", "-C", WT, "checkout", "-q", "--force", evaluate_on])
+                base = evaluate_on
             ported = os.path.join(d, "patch_on_fixed_head.diff")
             patch = ported if os.path.exists(ported) else os.path.join(d, "patch.diff")
             r = sh(["git", "-C", WT, "apply", patch])
